@@ -147,6 +147,63 @@ pub fn vx_head_test(head: VxPair) -> (r: VxPair) { unimplemented!() }
 // grammar: a branch node has only heads, `else` and a body as children (assumed)
 #[verifier::external_body]
 pub fn vx_unreachable_by_grammar() { }
+// ---- run_script (C15): the functions of a file are taken out of it and defined -- name and body as written -- BEFORE its other lines are run, in order;
+// the status is that of the last command run; a `set -e` of the file ends with it ----
+// reading the file (path lookup, errors, line continuations): opaque; None = a diagnostic was printed, the script returns 1
+#[verifier::external_body]
+pub fn vx_load_script(args: &Vec<String>) -> (r: Option<String>) { unimplemented!() }
+#[verifier::external_body]
+pub fn vx_lines(text: &String) -> (r: Vec<String>) { unimplemented!() }
+// the two patterns: a header line gives the name; the closing line (both uninterpreted; axiom fn_head says what they must accept)
+pub uninterp spec fn spec_fn_head(t: Seq<char>) -> Option<Seq<char>>;
+pub uninterp spec fn spec_fn_tail(t: Seq<char>) -> bool;
+pub struct VxHeadRe { pub id: int }
+pub struct VxTailRe { pub id: int }
+pub struct VxHeadCap { pub g1: String }
+#[verifier::external_body]
+pub fn vx_re_head(ptn: &str) -> (r: VxHeadRe) { unimplemented!() }
+#[verifier::external_body]
+pub fn vx_re_tail(ptn: &str) -> (r: VxTailRe) { unimplemented!() }
+impl VxHeadRe {
+    #[verifier::external_body]
+    pub fn is_match(&self, t: &str) -> (r: bool) ensures r == spec_fn_head(t@).is_some() { unimplemented!() }
+    #[verifier::external_body]
+    pub fn captures(&self, t: &str) -> (r: Option<VxHeadCap>) ensures r.is_some() == spec_fn_head(t@).is_some(), r.is_some() ==> r.unwrap().g1@ == spec_fn_head(t@).unwrap() { unimplemented!() }
+}
+impl VxTailRe {
+    #[verifier::external_body]
+    pub fn is_match(&self, t: &str) -> (r: bool) ensures r == spec_fn_tail(t@) { unimplemented!() }
+}
+#[verifier::external_body]
+pub fn vx_push_str(s: &mut String, t: &str) ensures final(s)@ == old(s)@ + t@ { s.push_str(t) }
+#[verifier::external_body]
+pub fn vx_push_nl(s: &mut String) ensures final(s)@ == old(s)@.push('\n') { s.push('\n') }
+pub ghost struct DefLog { pub defs: Seq<(Seq<char>, Seq<char>)> }
+#[verifier::external_body]
+pub proof fn new_deflog() -> (tracked r: DefLog) ensures r.defs.len() == 0 { unimplemented!() }
+impl Shell {
+    // Shell::set_func (contract in U-ENV: the later definition replaces the earlier one); here: what is defined, in order
+    #[verifier::external_body]
+    pub fn set_func(&mut self, name: &str, value: &str, Tracked(dl): Tracked<&mut DefLog>)
+        ensures final(dl).defs == old(dl).defs.push((name@, value@)), *final(self) == *old(self)
+    { unimplemented!() }
+}
+// THE SPECIFIED READING of a file: a header line opens a definition, the closing line ends it and defines the function with the lines in between;
+// every other line belongs to the text that is run
+pub struct FState { pub in_func: bool, pub name: Seq<char>, pub body: Seq<char>, pub defs: Seq<(Seq<char>, Seq<char>)>, pub rest: Seq<char> }
+pub open spec fn fstep(st: FState, line: Seq<char>) -> FState {
+    let t = spec_trim(line);
+    if spec_fn_head(t).is_some() { FState { in_func: true, name: spec_fn_head(t).unwrap(), body: Seq::empty(), defs: st.defs, rest: st.rest } }
+    else if spec_fn_tail(t) { FState { in_func: false, name: st.name, body: st.body, defs: st.defs.push((st.name, st.body)), rest: st.rest } }
+    else if st.in_func { FState { in_func: true, name: st.name, body: (st.body + line).push('\n'), defs: st.defs, rest: st.rest } }
+    else { FState { in_func: false, name: st.name, body: st.body, defs: st.defs, rest: (st.rest + line).push('\n') } }
+}
+pub open spec fn frun(lines: Seq<String>, n: int) -> FState
+    decreases n
+{
+    if n <= 0 { FState { in_func: false, name: Seq::empty(), body: Seq::empty(), defs: Seq::empty(), rest: Seq::empty() } } else { fstep(frun(lines, n - 1), lines[n - 1]@) }
+}
+//@FN run_script
 //@FN stopped_by_error
 //@FN run_exp_while
 //@FN run_exp
@@ -311,7 +368,35 @@ for_words = Fn(S, 'expand_line_to_toknes', ret='r',
     requires=[('C15.pre.for_words.fresh_log', 'old(pl).passes.len() == 0')],
     ensures=[('C10+C15.for_words.positional_parameters_first_then_the_other_expansions_each_once', 'final(pl).passes == seq![1int, 2int]')],
 )
-UNIT = Unit('U-SCRIPT', TEMPLATE, fns=[stopped_by_error, run_exp_while, run_exp, test_br, exp_if, exp_for, for_words, run_lines],
+run_script = Fn(S, 'run_script', ret='r',
+    pre_rewrites=[
+        Rw(r'let src_file = &args\[1\];[\s\S]*?(?=let re_func_head)', 'let text = match vx_load_script(args) { Some(t) => t, None => { return 1; } };\n    ', regex=True, rule='R10',
+           why='locating, opening and reading the file (with its diagnostics) and joining continued lines: one opaque shim; what follows works on the text'),
+        Rw(r'Regex::new\((r"\^function[^"]*")\)\.unwrap\(\)', r'vx_re_head(\1)', regex=True, rule='R10', why='the header pattern through an opaque type (axiom fn_head)'),
+        Rw(r'Regex::new\((r"\^\\\}\$")\)\.unwrap\(\)', r'vx_re_tail(\1)', regex=True, rule='R10', why='the closing-line pattern through an opaque type'),
+        Rw('for line in text.clone().lines() {', 'let __lines = vx_lines(&text); for line in __lines.iter() {', rule='R11', why='str::lines through a shim: the lines of the text in order'),
+        Rw('cap[1].to_string()', 'vx_s(&cap.g1)', rule='R12'),
+        Rw('func_body.push_str(line);', 'vx_push_str(&mut func_body, line);', rule='R12'),
+        Rw("func_body.push('\\n');", 'vx_push_nl(&mut func_body);', rule='R12'),
+        Rw('text_new.push_str(line);', 'vx_push_str(&mut text_new, line);', rule='R12'),
+        Rw("text_new.push('\\n');", 'vx_push_nl(&mut text_new);', rule='R12'),
+        Rw('cr_list.last()', 'vx_slice_last(cr_list.as_slice())', rule='R12'),
+    ] + RW,
+    requires=[('C05.pre.run_script.a_file_is_named', 'args@.len() >= 2')],
+    ghost_args={'set_func': 'Tracked(&mut dl)', 'run_lines': 'Tracked(&mut lg9)'},
+    let_types={'cr_list': 'Vec<CommandResult>'},
+    ensures=[('C15.run_script.a_set_e_of_the_file_ends_with_it', 'final(sh).exit_on_error == old(sh).exit_on_error || r == 1')],
+    loops={0: Loop(invariant=[
+        ('C15.inv.run_script.reading', 'args@.len() >= 2 && *sh == *old(sh) && dl.defs == frun(__lines@, __i0 as int).defs && text_new@ == frun(__lines@, __i0 as int).rest '
+                                       '&& enter_func == frun(__lines@, __i0 as int).in_func && (func_name@ == frun(__lines@, __i0 as int).name) && func_body@ == frun(__lines@, __i0 as int).body')])},
+    hints={'fn-entry': 'RAW: let tracked mut dl = new_deflog();',
+           'before-call:run_lines': 'RAW: let tracked mut lg9 = new_log(); ;;; '
+                                    'LABEL:C15.run_script.the_functions_of_the_file_are_defined_as_written_before_its_other_lines_are_run_in_order: '
+                                    'assert(dl.defs == frun(__lines@, __lines@.len() as int).defs && text_new@ == frun(__lines@, __lines@.len() as int).rest);',
+           'before-text:sh.exit_on_error = exit_on_error_outer;': 'LABEL:C15.run_script.the_status_is_that_of_the_last_command_run: '
+                                    'assert(status == (if cr_list@.len() > 0 { cr_list@.last().status } else { 0 }));'},
+)
+UNIT = Unit('U-SCRIPT', TEMPLATE, fns=[run_script, stopped_by_error, run_exp_while, run_exp, test_br, exp_if, exp_for, for_words, run_lines],
             types=[TypeItem('src/types.rs', 'struct', 'CommandResult')], props=('C15', 'C05'))
 TRUSTED = common.TRUSTED_STR + [
     'the pest parse tree is opaque: the text, rule and children of a node are uninterpreted (the grammar locust.pest is outside the verifier); '
@@ -320,4 +405,5 @@ TRUSTED = common.TRUSTED_STR + [
     '(run_command_line / expand_args have their own contracts in U-LIST / U-ARGS)',
     'args[0] is the script or function name (callers: run_script, try_run_func, source): assumed as precondition args.len() >= 1',
     'run_exp_while may run forever (a script loop): termination is not claimed for it',
+    'run_script: locating, opening and reading the file and joining continued lines is one opaque shim (vx_load_script); str::lines through a shim; the header and closing-line patterns are uninterpreted (bounded axiom fn_head)',
 ]
